@@ -382,4 +382,54 @@ pub fn register(m: &mut HashMap<&'static str, OpFn>) {
         let (r1, z1) = batch_observed(&mrefs, &sigs, &keys);
         vec![res(r0), zfmt(&z0), hex(&sigs[i].to_bytes()), hex(&sigs[j].to_bytes()), res(r1), zfmt(&z1)]
     });
+    // PKCS#8: secret32 public32|~ -> import through TryFrom<&KeypairBytes> (the 64-byte keypair rule in its other clothes)
+    m.insert("sig.pkcs8_kp", |a| {
+        use ed25519_dalek::pkcs8::{KeypairBytes, PublicKeyBytes};
+        let kp = KeypairBytes {
+            secret_key: a.b32(0),
+            public_key: if a.tok(1) == "~" { None } else { Some(PublicKeyBytes(a.b32(1))) },
+        };
+        match SigningKey::try_from(&kp) {
+            Ok(k) => vec!["ok".into(), hex(k.verifying_key().as_bytes()), hex(&k.to_bytes())],
+            Err(_) => vec!["err".into()],
+        }
+    });
+    // DER / PEM documents: bytes -> SigningKey / VerifyingKey
+    m.insert("sig.pkcs8_der", |a| {
+        use ed25519_dalek::pkcs8::DecodePrivateKey;
+        match SigningKey::from_pkcs8_der(&a.bytes(0)) {
+            Ok(k) => vec!["ok".into(), hex(k.verifying_key().as_bytes()), hex(&k.to_bytes())],
+            Err(_) => vec!["err".into()],
+        }
+    });
+    m.insert("sig.spki_der", |a| {
+        use ed25519_dalek::pkcs8::DecodePublicKey;
+        match VerifyingKey::from_public_key_der(&a.bytes(0)) {
+            Ok(k) => vec!["ok".into(), hex(k.as_bytes())],
+            Err(_) => vec!["err".into()],
+        }
+    });
+    m.insert("sig.pkcs8_pem", |a| {
+        use ed25519_dalek::pkcs8::{DecodePrivateKey, DecodePublicKey};
+        let t = String::from_utf8_lossy(&a.bytes(0)).into_owned();
+        let r1 = match SigningKey::from_pkcs8_pem(&t) {
+            Ok(k) => hex(k.verifying_key().as_bytes()),
+            Err(_) => "err".into(),
+        };
+        let r2 = match VerifyingKey::from_public_key_pem(&t) {
+            Ok(k) => hex(k.as_bytes()),
+            Err(_) => "err".into(),
+        };
+        vec![r1, r2]
+    });
+    // seed -> DER of the private key, DER of the public key, and what decoding them again gives
+    m.insert("sig.pkcs8_encode", |a| {
+        use ed25519_dalek::pkcs8::{DecodePrivateKey, DecodePublicKey, EncodePrivateKey, EncodePublicKey};
+        let sk = SigningKey::from_bytes(&a.b32(0));
+        let d1 = sk.to_pkcs8_der().expect("to_pkcs8_der");
+        let d2 = sk.verifying_key().to_public_key_der().expect("to_public_key_der");
+        let back1 = SigningKey::from_pkcs8_der(d1.as_bytes()).map(|k| hex(&k.to_bytes())).unwrap_or_else(|_| "err".into());
+        let back2 = VerifyingKey::from_public_key_der(d2.as_bytes()).map(|k| hex(k.as_bytes())).unwrap_or_else(|_| "err".into());
+        vec![hex(d1.as_bytes()), hex(d2.as_bytes()), back1, back2]
+    });
 }
